@@ -5,13 +5,14 @@
       3  regression: failing store + spilled sorter chunks (child process)   -> (1) = error returned
       4  regression: failing slow store, producer must not leak              -> (1) = error returned
       5  merge end to end, repeated under different GOMAXPROCS / yields      -> (0) = all runs agree
-      6  regression: store Get failing during a merge (errChan capacity)     -> (1) = error returned *)
+      6  regression: store Get failing during a merge (errChan capacity)     -> (1) = error returned
+      7  ingest as kind 0 with varying-length keys in the second column      -> Pool.run_ingest *)
 From W.lib Require Import Tree.
 From W.model Require Import Pool PoolFlow.
 
 Definition run_C16 (c : tree) : tree :=
   match d_nat (d_nth 0 c) with
-  | 0%nat => run_ingest c
+  | 0%nat | 7%nat => run_ingest c
   | 2%nat => run_flow c
   | 3%nat | 4%nat | 6%nat => Node [Leaf 1]
   | _ => Node [Leaf 0]
